@@ -566,6 +566,17 @@ pub fn structural(prop: &'static str, cfg: &Config) -> PropRun {
             |local, input, _| visit_text(prop, local, input),
         ));
     }
+    if cfg.only_spaces.is_empty() {
+        let ts = spaces::test_string_inputs(&cfg.corpus_dir, cfg.tier, true);
+        if !ts.is_empty() {
+            report.absorb(ex.run_list(
+                "snippets of the repository's inline tests: alone, inside every nesting prefix, all ordered pairs",
+                ts.len() as u64,
+                |i, buf| buf.push_str(&ts[i as usize]),
+                |local, input, _| visit_text(prop, local, input),
+            ));
+        }
+    }
     if matches!(prop, "C07" | "C06" | "C01") && cfg.only_spaces.is_empty() {
         let bodies = hex_bodies();
         report.absorb(ex.run_list(
@@ -1186,6 +1197,19 @@ fn c15_run(cfg: &Config) -> PropRun {
         }
     }
     let mut lit_list: Vec<String> = Vec::new();
+    // the snippets of the repository's inline tests, as they are and closed by ';' / a comment
+    for t in spaces::load_test_strings(&cfg.corpus_dir) {
+        for closer in ["", ";", ";\n", " * c;", ";/*c*/"] {
+            let p = format!("{t}{closer}");
+            if let Outcome::Ok(r) = run_lexer(&p) {
+                if closed_prefix(&p, &r) {
+                    a_list.push(p);
+                } else if closed_prefix_literal(&p, &r) {
+                    lit_list.push(p);
+                }
+            }
+        }
+    }
     // every error body closed by every kind of statement closer (a ';' token, a comment statement
     // that swallows its ';', a macro comment, a trailing block comment); kept when closed here
     for body in C15_ERROR_BODIES {
@@ -1243,6 +1267,8 @@ fn c15_run(cfg: &Config) -> PropRun {
     // generated programs as continuations (they contain %str sections, strings, calls, ...)
     b_list.extend(crate::grammar::programs(if q { 1 } else { 2 }, false));
     b_list.extend(C15_STATEFUL_A.iter().map(|s| (*s).to_string()));
+    let tstr = spaces::load_test_strings(&cfg.corpus_dir);
+    b_list.extend(tstr.iter().cloned());
     // A byte-order mark is one only at the very start of a source (C17); a continuation that
     // starts with U+FEFF would be read as "BOM" when lexed alone and as an ordinary character
     // when it follows A, so it is not a continuation in the sense of the property.
@@ -1433,6 +1459,7 @@ pub fn run_property(prop: &'static str, cfg: &Config) -> PropRun {
                     }
                 }
                 firsts.extend(spaces::fold_alike_words().into_iter().map(|(h, w)| h.replacen("{}", &w, 1)));
+                firsts.extend(spaces::test_string_inputs(&cfg.corpus_dir, cfg.tier, true));
                 report.absorb(ex.run_list(
                     "BOM look-alike first characters x tails, fold-alike spellings",
                     firsts.len() as u64,
@@ -1495,6 +1522,7 @@ pub fn run_property(prop: &'static str, cfg: &Config) -> PropRun {
                 // generated programs: every statement and built-in of the construct grammar
                 let mut progs = crate::grammar::programs(2, false);
                 progs.extend(crate::grammar::rare_programs(" "));
+                progs.extend(spaces::test_string_inputs(&cfg.corpus_dir, cfg.tier, false));
                 if cfg.tier != Tier::Quick {
                     progs.extend(crate::grammar::rare_programs("/*c*/ "));
                 }
